@@ -95,7 +95,7 @@ pub fn uni_cfg() -> Cfg {
 /// scoped flag groups around / inside fancy constructs, mixed-case literals (C01 C02 C03 flag stages)
 pub fn flag_cfg() -> Cfg {
     Cfg {
-        leaves: vec![Lit('a'), Lit('B'), Class(false, vec![('a', 'b')]), Any, Assert(A::StartText), Assert(A::EndText), Backref(1), Lit('\n')],
+        leaves: vec![Lit('a'), Lit('B'), Class(false, vec![('a', 'b')]), Any, Assert(A::StartText), Assert(A::EndText), Backref(1), Lit('\n'), Lit('é')],
         unary: vec![
             |c| Some(Group(bx(c))),
             |c| Some(Atomic(bx(c))),
@@ -119,7 +119,7 @@ pub fn flag_cfg() -> Cfg {
     }
 }
 
-pub const FLAG_SIGMA: [char; 5] = ['a', 'A', 'b', 'B', '\n'];
+pub const FLAG_SIGMA: [char; 7] = ['a', 'A', 'b', 'B', '\n', 'é', 'É'];
 
 /// literals that are regex meta-characters (quoting when a piece is re-serialised for the automata engine)
 pub fn meta_cfg() -> Cfg {
